@@ -1228,7 +1228,7 @@ type typeParserParamNode struct {
 func (t *typeParser) parse() typeParserResult {
 	// parse the AST
 	ast, ok := t.parseClassNode()
-	if !ok {
+	if !ok || !ast.wellFormed() {
 		// treat this is a custom type
 		return typeParserResult{
 			isComposite: false,
@@ -1306,6 +1306,35 @@ func (t *typeParser) parse() typeParserResult {
 			reversed:    []bool{reversed},
 		}
 	}
+}
+
+// wellFormed reports whether the class and all its parameters have the
+// parameters their interpretation relies on, so that a malformed or truncated
+// definition is treated as a custom type instead of indexing out of range.
+func (class *typeParserClassNode) wellFormed() bool {
+	need := 0
+	switch {
+	case strings.HasPrefix(class.name, COMPOSITE_TYPE),
+		strings.HasPrefix(class.name, REVERSED_TYPE),
+		strings.HasPrefix(class.name, LIST_TYPE),
+		strings.HasPrefix(class.name, SET_TYPE):
+		need = 1
+	case strings.HasPrefix(class.name, MAP_TYPE):
+		need = 2
+	}
+	if len(class.params) < need {
+		return false
+	}
+	for i := range class.params {
+		param := &class.params[i]
+		if strings.HasPrefix(class.name, COLLECTION_TYPE) && param.name == nil {
+			return false
+		}
+		if !param.class.wellFormed() {
+			return false
+		}
+	}
+	return true
 }
 
 func (class *typeParserClassNode) asTypeInfo() TypeInfo {
@@ -1392,7 +1421,14 @@ func (t *typeParser) parseParamNodes() (params []typeParserParamNode, ok bool) {
 
 	t.skipWhitespace()
 
-	for t.input[t.index] != ')' {
+	for {
+		if t.index >= len(t.input) {
+			// unterminated parameter list
+			return nil, false
+		}
+		if t.input[t.index] == ')' {
+			break
+		}
 		// look for a named param, but if no colon, then we want to backup
 		backupIndex := t.index
 
@@ -1407,7 +1443,7 @@ func (t *typeParser) parseParamNodes() (params []typeParserParamNode, ok bool) {
 
 		t.skipWhitespace()
 
-		if t.input[t.index] == ':' {
+		if t.index < len(t.input) && t.input[t.index] == ':' {
 			// there is a name for this parameter
 
 			// consume the ':'
@@ -1440,7 +1476,7 @@ func (t *typeParser) parseParamNodes() (params []typeParserParamNode, ok bool) {
 
 		t.skipWhitespace()
 
-		if t.input[t.index] == ',' {
+		if t.index < len(t.input) && t.input[t.index] == ',' {
 			// consume the comma
 			t.index++
 
